@@ -52,24 +52,26 @@ type E2Cfg struct {
 }
 
 type E2Op struct {
-	K string `json:"k"`           // op kind
-	A string `json:"a,omitempty"` // primary object (name / key / queue / resource)
-	B string `json:"b,omitempty"` // secondary (policy, kubelet action, cache set ...)
-	N int    `json:"n,omitempty"`
-	D int64  `json:"d,omitempty"` // duration in ms / offset in s
+	K string         `json:"k"`           // op kind
+	A string         `json:"a,omitempty"` // primary object (name / key / queue / resource)
+	B string         `json:"b,omitempty"` // secondary (policy, kubelet action, cache set ...)
+	N int            `json:"n,omitempty"`
+	D int64          `json:"d,omitempty"` // duration in ms / offset in s
 	F *sim.Fault     `json:"f,omitempty"`
 	C *sim.CrashPlan `json:"c,omitempty"`
 }
 
 type E2Trace struct {
-	Start   int64    `json:"start"`
-	Cfg     E2Cfg    `json:"cfg"`
-	JCs     []E2JC   `json:"jcs"`
-	Ops     []E2Op   `json:"ops"`
-	Profile string   `json:"profile"`
+	Start   int64  `json:"start"`
+	Cfg     E2Cfg  `json:"cfg"`
+	JCs     []E2JC `json:"jcs"`
+	Ops     []E2Op `json:"ops"`
+	Profile string `json:"profile"`
 	// AutoRestart reboots the controller process before the next op whenever it
 	// has crashed (scripted workloads of the fault sweeps).
 	AutoRestart bool `json:"autoRestart,omitempty"`
+	// ListSalt fixes the order in which the caches return lists in this run (0 = key order).
+	ListSalt uint64 `json:"listSalt,omitempty"`
 }
 
 func (j E2JC) parallelism() *execution.ParallelismSpec {
@@ -152,16 +154,17 @@ func (c E2Cfg) ttlDefault() int64 {
 // ---------- the run: a world plus the trace applied so far ----------
 
 type e2run struct {
-	tr     *E2Trace
-	w      *sim.World
-	mon    *monitor
-	nJobs  int
-	labels map[string]bool
+	tr       *E2Trace
+	w        *sim.World
+	mon      *monitor
+	nJobs    int
+	labels   map[string]bool
 	excluded int
 }
 
 func newE2Run(tr *E2Trace, withMonitors bool) *e2run {
 	r := &e2run{tr: tr, labels: map[string]bool{}}
+	sim.ListSalt = tr.ListSalt
 	r.w = sim.NewWorld(sim.Options{Start: time.UnixMilli(e2Epoch(tr.Start))})
 	tr.Cfg.apply(r.w)
 	if withMonitors {
@@ -329,6 +332,9 @@ func (r *e2run) apply(op E2Op) {
 		}
 	case "settle":
 		r.settle()
+	case "midDeliver": // A = resource, N = at which next controller create/update, D = count (0 = all)
+		w.Mid = &sim.MidPlan{AtCall: op.N, Res: sim.Res(op.A), Count: int(op.D)}
+		r.label("mid-reconcile-delivery-armed")
 	case "settleLag": // A = resource whose controller-side events are withheld
 		r.settleLag(sim.Res(op.A))
 		r.label("sustained-lag:" + op.A)
@@ -468,6 +474,9 @@ func genE2Setup(t *rapid.T, p e2Profile) *E2Trace {
 		TTLDefault:     optInt64(t, "cfgTTL", 0, 60, 3600),
 		MaxEnqueued:    optInt64(t, "cfgMaxEnq", 2, 20),
 	}
+	if rapid.Bool().Draw(t, "permuteLists") {
+		tr.ListSalt = rapid.Uint64Range(1, 1<<40).Draw(t, "listSalt")
+	}
 	if p.confluent {
 		one := int64(1)
 		tr.Cfg.MaxEnqueued, tr.Cfg.MaxMissed = nil, &one
@@ -508,8 +517,8 @@ func genE2Setup(t *rapid.T, p e2Profile) *E2Trace {
 }
 
 type livePod struct {
-	key   string
-	pod   *corev1.Pod
+	key string
+	pod *corev1.Pod
 }
 
 // genE2Ops generates ops against a live simulation so that every drawn op is
@@ -675,6 +684,11 @@ func genOpsOn(t *rapid.T, r *e2run, tr *E2Trace, p e2Profile, _ int) {
 			}
 			add("resync", 1, func() E2Op { return E2Op{K: "resync", A: string(rapid.SampledFrom(sim.AllRes).Draw(t, "resyncres"))} })
 			add("settleLag", 3, func() E2Op { return E2Op{K: "settleLag", A: string(rapid.SampledFrom(sim.AllRes).Draw(t, "lagres"))} })
+			if w.Alive && w.Mid == nil {
+				add("midDeliver", 4, func() E2Op {
+					return E2Op{K: "midDeliver", A: string(rapid.SampledFrom(sim.AllRes).Draw(t, "midres")), N: rapid.IntRange(1, 4).Draw(t, "midAt"), D: int64(rapid.IntRange(0, 2).Draw(t, "midCount"))}
+				})
+			}
 		}
 		if p.crashes && w.Alive {
 			add("restart", 1, func() E2Op { return E2Op{K: "restart"} })
@@ -789,6 +803,9 @@ func runE2(tr E2Trace, props map[string]bool) pbt.Result {
 		if debug {
 			r.dump()
 		}
+	}
+	if r.w.MidDelivered > 0 {
+		r.label("mid-reconcile-delivery")
 	}
 	res := pbt.Result{Labels: append(sortedLabels(r.labels), sortedLabels(r.mon.labels)...), Excluded: r.excluded, Violation: r.mon.first()}
 	res.Extra = map[string]int{"steps": r.w.Steps, "ledger": len(r.w.API.Ledger)}
